@@ -30,6 +30,28 @@ SUITE_INTS = {0, 1, 16, 17, 127, 128, 129, 255, 256, 257, 32767, 32768, 32769, 7
 SUITE_INTS |= {-v for v in SUITE_INTS}
 
 
+
+_buf_n = [0]
+
+
+def as_buffer(data: bytes):
+    """The reader is documented to take bytes, bytearray or memoryview: the same encoding is handed over in each of these,
+    including memoryviews whose item format is signed char or char (what array('b'), ctypes or numpy int8 buffers give)."""
+    _buf_n[0] += 1
+    k = _buf_n[0] % 8
+    if k == 1:
+        return bytearray(data)
+    if k == 2:
+        return memoryview(data)
+    if k == 3 and data:
+        return memoryview(bytearray(data)).cast("b")
+    if k == 4 and data:
+        return memoryview(bytearray(data)).cast("c")
+    if k == 5:
+        return memoryview(bytearray(b"\x00" + data + b"\x00"))[1:-1]
+    return data
+
+
 def plan(tier: str, seed: int) -> t.List[dict]:
     specs: t.List[dict] = []
     if tier == "quick":
@@ -85,7 +107,7 @@ def check_int(rec: Recorder, v: int, a=None, enumerated: bool = False) -> None:
         rec.violation(f"{kind}-enc-mismatch", f"{kind} {v}: writer {got.hex()} != DER {want.hex()}", {"kind": kind, "value": str(v)})
         return
     try:
-        r = a.ASN1Reader(want)
+        r = a.ASN1Reader(as_buffer(want))
         back = r.read_enumerated(int) if enumerated else r.read_integer()
         left = r.get_remaining_data()
     except Exception as e:
@@ -193,7 +215,7 @@ def check_oid(rec: Recorder, arcs: t.List[int]) -> None:
         rec.violation("oid-enc-mismatch", f"OID {s}: writer {got.hex()} != DER {want.hex()}", wit)
         return
     try:
-        r = a.ASN1Reader(want)
+        r = a.ASN1Reader(as_buffer(want))
         back = r.read_object_identifier()
         left = r.get_remaining_data()
     except Exception as e:
@@ -233,7 +255,7 @@ def check_string(rec: Recorder, kind: str, value: t.Any) -> None:
         rec.violation(f"{kind}-enc-mismatch", f"{kind} len {len(value)}: writer {got[:16].hex()}.. != DER {want[:16].hex()}..", wit)
         return
     try:
-        r = a.ASN1Reader(want)
+        r = a.ASN1Reader(as_buffer(want))
         back = {"octets": r.read_octet_string, "utf8": r.read_utf8_string, "gentime": r.read_generalized_time}[kind]()
         left = r.get_remaining_data()
     except Exception as e:
@@ -255,7 +277,7 @@ def check_bool(rec: Recorder, v: bool) -> None:
     if got != want:
         rec.violation("bool-enc-mismatch", f"bool {v}: {got.hex()} != {want.hex()}", {"kind": "bool", "value": v})
         return
-    r = a.ASN1Reader(want)
+    r = a.ASN1Reader(as_buffer(want))
     back = r.read_boolean()
     rec.count("reader_leftover_checks")
     if back is not v or r.get_remaining_data():
@@ -421,7 +443,7 @@ def check_tree(rec: Recorder, tree, label: str) -> None:
         rec.violation(f"{label}-enc-mismatch", f"writer output differs from DER at byte {next((i for i, (x, y) in enumerate(zip(got, want)) if x != y), min(len(got), len(want)))}", wit)
         return
     try:
-        r = a.ASN1Reader(want)
+        r = a.ASN1Reader(as_buffer(want))
         if tree[0] == "concat":
             m = None
             for c in tree[1]:
@@ -459,7 +481,7 @@ def check_reader_api_variants(rec: Recorder, rng: random.Random) -> None:
     wit = {"kind": "reader-api", "tree": repr(("concat", items))[:3000]}
     try:
         for wrap in (bytes, bytearray, memoryview):
-            r = a.ASN1Reader(wrap(data))
+            r = a.ASN1Reader(as_buffer(wrap(data)))
             for enc in encs:
                 hdr = r.peek_header()
                 n = der.parse_at(enc, 0, len(enc))
